@@ -203,4 +203,20 @@ def _dynamic(ctx):
             ctx.evaluation(f"{system}:{cls}", (system, n, tuple(S)), nontrivial=nontriv, sample=sample)
             ctx.count("fills_judged")
             _check_result(ctx, system, field, S, out, case_id, cls)
+            # the same supplied set again in the same process, columns in another order and other values
+            if not via_elast and len(S) > 1:
+                try:
+                    field2 = FT.invariant_field(rng, system, nrows)
+                    S2 = [S[int(j)] for j in rng.permutation(len(S))]
+                    import pandas
+                    df2 = pandas.DataFrame({"V": numpy.linspace(620.0, 500.0, nrows) if nrows > 1 else numpy.array([560.0]),
+                                            **{FT.NAMES[s_]: field2[:, s_] for s_ in S2}})
+                    out2 = FT.frame_moduli(fill_cij(df2, system))
+                    ctx.evaluation(f"{system}:same-set-other-order", (system, n, tuple(S2)), nontrivial=S2 != S)
+                    _check_result(ctx, system, field2, S, out2, case_id, cls + "+reordered-second-fill")
+                except Exception as exc:
+                    if classify_exception(exc) == "code" or isinstance(exc, Warning):
+                        ctx.violation(f"dynamic:raises-on-reordered-second-fill:{system}:{type(exc).__name__}", exc_text(exc), case_id, sample)
+                    else:
+                        ctx.harness_error("C08.reordered", exc)
     ctx.require("fills_judged", 9)
